@@ -23,7 +23,7 @@ a == AId("a")
 b == AId("b")
 
 \* level 1: wide alphabet (every data type, every operator with good and bad operand types, built-in names,
-\* unsupported construct, malformed entries); level 2: narrow alphabet for longer file lists
+\* unsupported construct, malformed entries); levels 2-4: narrow alphabets for longer file lists
 Forms(level) ==
     IF level = 1 THEN
     << V(E1(u)),                                   \*  1  'u'
@@ -51,12 +51,15 @@ Forms(level) ==
        Form("empty", <<>>),                        \* 23  key =
        Form("noeq", <<>>) >>                       \* 24  a line without `=`
     ELSE
-    << V(E1(u)),                                   \*  1  'u'
-       V(E1(a)),                                   \*  2  a
-       V(E1(b)),                                   \*  3  b
-       V(Plus(a, w)),                              \*  4  a + 'w'
-       V(E1(AArr(<<E1(b)>>))),                     \*  5  [b]
-       V(Slash(b, a)) >>                           \*  6  b / a
+    LET narrow == << V(E1(u)),                     \*  1  'u'
+                     V(E1(a)),                     \*  2  a
+                     V(Plus(a, w)),                \*  3  a + 'w'
+                     V(E1(b)),                     \*  4  b
+                     V(E1(AArr(<<E1(b)>>))),       \*  5  [b]
+                     V(Slash(b, a)) >>             \*  6  b / a
+    IN IF level = 2 THEN SubSeq(narrow, 1, 4)      \* level 2: four forms, level 3: six, level 4: three
+       ELSE IF level = 3 THEN narrow
+       ELSE SubSeq(narrow, 1, 3)
 
 MkEntry(k, x, level) == LET fm == Forms(level)[x]
                         IN [key |-> IF fm.kind = "noeq" THEN "" ELSE KeyNames[k], kind |-> fm.kind, e |-> fm.e]
